@@ -29,10 +29,21 @@ class LoopSpec:
         self.bound = bound
 
 
+def _hook(fn, arg, what):
+    """run a callback of the sidecar contract (invariant, havoc, variant, at_head / at_back).  A contract that names a
+    local the code no longer has (renamed, removed) is a contract that does not fit the code - a checker fault (exit 3),
+    never a verdict about the code: without this a KeyError raised HERE surfaced as 'the function raised KeyError'."""
+    try:
+        return fn(arg)
+    except (KeyError, NameError, IndexError) as e:
+        raise EngineError(f"contract callback '{what}' does not fit the code under contract "
+                          f"(a local it names is gone or renamed?): {type(e).__name__}: {e}") from e
+
+
 def _inv_items(spec, L):
     if spec is None or spec.inv is None:
         return []
-    r = spec.inv(L)
+    r = _hook(spec.inv, L, "inv")
     if isinstance(r, (list, tuple)):
         return list(r)
     return [("inv", r)]
@@ -495,7 +506,7 @@ class VCRuntime:
             return {}
         if spec.first_iteration:
             if spec.at_head is not None:
-                spec.at_head(dict(L))
+                _hook(spec.at_head, dict(L), 'at_head')
             return {}
         for nm, cond in _inv_items(spec, L):
             c.check(f"{tag}.init.{nm}", cond, kind="loop-init")
@@ -529,7 +540,7 @@ class VCRuntime:
                     # nothing is known about it after the havoc (every test on it may go either way)
                     new[v] = stubs.Opaque(f"{v}@loop{k}")
         if spec.havoc is not None:
-            spec.havoc(L)
+            _hook(spec.havoc, L, 'havoc')
         elif spec.havoc_heap:
             u.havoc_heap(L)
         L2 = dict(L)
@@ -538,10 +549,10 @@ class VCRuntime:
             c.assume(cond)
         if spec.variant is not None:
             c.loop_variants = getattr(c, "loop_variants", {})
-            c.loop_variants[(self.fn_id, k)] = spec.variant(L2)
+            c.loop_variants[(self.fn_id, k)] = _hook(spec.variant, L2, 'variant')
         c.cover(f"{tag}.head")
         if spec.at_head is not None:
-            spec.at_head(L2)
+            _hook(spec.at_head, L2, 'at_head')
         return new
 
     def loop_back(self, k, L):
@@ -553,15 +564,15 @@ class VCRuntime:
             if n > (spec.bound or 64):
                 raise EngineError(f"{tag}: unrolled loop exceeded its bound {spec.bound or 64}")
             if spec.at_back is not None:
-                spec.at_back(L)
+                _hook(spec.at_back, L, 'at_back')
             return None
         if spec is not None and spec.at_back is not None:
-            spec.at_back(L)
+            _hook(spec.at_back, L, 'at_back')
         for nm, cond in _inv_items(spec, L):
             c.check(f"{tag}.preserve.{nm}", cond, kind="loop-preserve")
         if spec is not None and spec.variant is not None:
             v0 = getattr(c, "loop_variants", {}).get((self.fn_id, k))
-            v1 = spec.variant(L)
+            v1 = _hook(spec.variant, L, 'variant')
             if isinstance(v0, tuple):
                 # lexicographic
                 lt = False
